@@ -47,7 +47,7 @@ static inline void bitmap256_init(struct Bitmap256 *bmap)
  */
 static inline void bitmap256_set(struct Bitmap256 *bmap, uint8_t byte)
 {
-	bmap->bmap[byte >> BITMAP256_SHIFT] |= 1 << (byte & BITMAP256_MASK);
+	bmap->bmap[byte >> BITMAP256_SHIFT] |= 1U << (byte & BITMAP256_MASK);
 }
 
 /**
@@ -55,7 +55,7 @@ static inline void bitmap256_set(struct Bitmap256 *bmap, uint8_t byte)
  */
 static inline bool bitmap256_is_set(const struct Bitmap256 *bmap, uint8_t byte)
 {
-	return bmap->bmap[byte >> BITMAP256_SHIFT] & (1 << (byte & BITMAP256_MASK));
+	return bmap->bmap[byte >> BITMAP256_SHIFT] & (1U << (byte & BITMAP256_MASK));
 }
 
 /*
